@@ -19,4 +19,13 @@ CHECKS = {
           "Geometry, Coord operands, swapped, variants, exact maps); Pos(g,p) for every fine-lattice point decides "
           "coordinate_position / intersects(coord) / contains(coord)."),
     note=_TB, technique="TLA+ Pos / DE-9IM masks enumerated by TLC; spec->impl replay", design_ref="DESIGN.md 5 C02"),
+ "C18": dict(
+    text=("PolySession.tla is the state machine of Polygon / LineString / Rect under the public constructor and mutator calls "
+          "(closures = edit sequences + Ok/Err exit). TLC model-checks RingsClosed and RectOrdered over all histories within the "
+          "constants; every transition of the state graph becomes one implementation test (pre-state built through the API, action "
+          "executed, post-state compared); simulated 20-call behaviours are replayed from Init; seeded random histories recorded "
+          "from the real API are validated as a chain against Trace_PolySession (diameter post-condition, invariants in every state)."),
+    note=("Trusted: TLC; the edit language (push/pop/clear/set/insert + exit) as a stand-in for arbitrary closures; closures that "
+          "panic are not modelled. The invariant is inductive in the model; bounds NC<=4 coordinates, rings <= 4(+1), <= 3 holes."),
+    technique="TLA+ state machine: TLC invariants + per-transition replay + chained trace validation", design_ref="DESIGN.md 5 C18"),
 }
